@@ -18,21 +18,8 @@ use vcore::{CheckResult, Ctx, Fail, Obs, Sub};
 
 // ------------------------------------------------------------------------------ chain
 
-/// development aid: VERIF_C18_DEV_IGNORE=prefix1,prefix2 turns failures with these signature
-/// prefixes into labels so that a run can be calibrated before known_findings.json lists them.
-fn dev<C>(f: impl Fn(&C, &mut Obs) -> CheckResult) -> impl Fn(&C, &mut Obs) -> CheckResult {
-    let ign: Vec<String> = std::env::var("VERIF_C18_DEV_IGNORE").map(|s| s.split(',').filter(|x| !x.is_empty()).map(String::from).collect()).unwrap_or_default();
-    move |c, o| match f(c, o) {
-        Err(e) if ign.iter().any(|p| e.sig.starts_with(p.as_str())) => {
-            o.label(format!("dev-ignored:{}", e.sig));
-            Ok(())
-        }
-        r => r,
-    }
-}
-
 fn run_chain(ctx: &Ctx) {
-    ctx.run_prop("chain-operators", ctx.tier.pick(4_000, 120_000), || chain::chain_strat(1, 5, 8), dev(chain::check_chain));
+    ctx.run_prop("chain-operators", ctx.tier.pick(10_000, 300_000), || chain::chain_strat(1, 5, 8), chain::check_chain);
 }
 
 fn built_cached(base: &Base) -> Result<Arc<Built>, Fail> {
@@ -61,7 +48,7 @@ fn run_flips(ctx: &Ctx) {
         return;
     }
     // (entries lo, hi, how many)
-    let plan: &[(usize, usize, u64)] = ctx.tier.pick(&[(1, 1, 3), (2, 2, 3), (3, 3, 1)][..], &[(1, 1, 12), (2, 2, 16), (3, 3, 10), (4, 4, 6), (5, 5, 4)][..]);
+    let plan: &[(usize, usize, u64)] = ctx.tier.pick(&[(1, 1, 3), (2, 2, 3), (3, 3, 1)][..], &[(1, 1, 30), (2, 2, 40), (3, 3, 25), (4, 4, 12), (5, 5, 10)][..]);
     let mut bases = vec![Base::Golden];
     let mut k = 0u64;
     for (lo, hi, count) in plan {
@@ -105,7 +92,7 @@ fn run_flips(ctx: &Ctx) {
             let (bi, region, entry, serde, start, _) = *blocks.get(k)?;
             Some(FlipCase { base: bases[bi].clone(), region, entry, bit: (i - start) as u32, serde })
         },
-        dev(check_flip_case),
+        check_flip_case,
     );
 }
 
@@ -127,25 +114,30 @@ fn run_minimal(ctx: &Ctx) {
 // ------------------------------------------------------------------------------ the rest
 
 fn run_sm(ctx: &Ctx) {
-    ctx.run_prop("signed-message", ctx.tier.pick(12_000, 360_000), sigmsg::sm_strat, dev(sigmsg::check_sm));
+    ctx.run_prop("signed-message", ctx.tier.pick(30_000, 900_000), sigmsg::sm_strat, sigmsg::check_sm);
 }
 fn run_segrpc(ctx: &Ctx) {
-    ctx.run_prop("segment-message-arbitrary", ctx.tier.pick(150_000, 4_500_000), segrpc::rseg, dev(segrpc::check_rseg));
-    ctx.run_prop("segments-response-arbitrary", ctx.tier.pick(40_000, 1_200_000), segrpc::rresp, dev(segrpc::check_rresp));
-    ctx.run_prop("segments-page-roundtrip", ctx.tier.pick(1_500, 45_000), segrpc::page_strat, dev(segrpc::check_page));
+    ctx.run_prop("segment-message-arbitrary", ctx.tier.pick(300_000, 9_000_000), segrpc::rseg, segrpc::check_rseg);
+    ctx.run_prop("segments-response-arbitrary", ctx.tier.pick(60_000, 1_800_000), segrpc::rresp, segrpc::check_rresp);
+    ctx.run_prop("segments-page-roundtrip", ctx.tier.pick(3_000, 90_000), segrpc::page_strat, segrpc::check_page);
 }
 fn path_val_strat() -> impl Strategy<Value = PathVal> {
     prop_oneof![3 => pathrpc::path_val(true), 1 => pathrpc::path_val(false)]
 }
 fn run_path(ctx: &Ctx) {
-    ctx.run_prop("path-value-roundtrip", ctx.tier.pick(100_000, 3_000_000), path_val_strat, dev(pathrpc::check_val));
-    ctx.run_prop("path-message-wellformed", ctx.tier.pick(100_000, 3_000_000), pathrpc::path_msg_wellformed, dev(pathrpc::check_msg));
-    ctx.run_prop("path-message-arbitrary", ctx.tier.pick(150_000, 4_500_000), pathrpc::path_msg_arbitrary, dev(pathrpc::check_msg));
-    let locals: Vec<u64> = vec![0, 1, 0x0001_ff00_0000_0110, u64::MAX, 1 << 48];
-    ctx.run_list("path-local", &locals, |ia, _| pathrpc::check_local(*ia));
+    ctx.run_list("path-minimal", &pathrpc::minimal_vals(), |c, o| pathrpc::check_val(c, o));
+    ctx.run_list("path-minimal-message", &pathrpc::minimal_msgs(), |c, o| pathrpc::check_msg(c, o));
+    ctx.run_prop("path-value-roundtrip", ctx.tier.pick(200_000, 6_000_000), path_val_strat, pathrpc::check_val);
+    ctx.run_prop("path-message-wellformed", ctx.tier.pick(200_000, 6_000_000), pathrpc::path_msg_wellformed, pathrpc::check_msg);
+    ctx.run_prop("path-message-arbitrary", ctx.tier.pick(300_000, 9_000_000), pathrpc::path_msg_arbitrary, pathrpc::check_msg);
+    let locals: Vec<u64> = vec![0, 1, 0x0001_ff00_0000_0110, u64::MAX, 1 << 48, (1 << 48) | 1];
+    ctx.run_list("path-local", &locals, |ia, o| {
+        o.label("path-local");
+        pathrpc::check_local(*ia)
+    });
 }
 fn run_raw(ctx: &Ctx) {
-    ctx.run_prop("rpc-raw-bytes", ctx.tier.pick(200_000, 6_000_000), rawbytes::raw_strat, dev(rawbytes::check_raw));
+    ctx.run_prop("rpc-raw-bytes", ctx.tier.pick(400_000, 12_000_000), rawbytes::raw_strat, rawbytes::check_raw);
 }
 
 fn post(ctx: &Ctx) {
@@ -184,16 +176,18 @@ fn main() {
         Sub { name: "segment-message-arbitrary", run: run_segrpc, replay: |c, v| c.replay_case::<RSeg>("segment-message-arbitrary", v, segrpc::check_rseg) },
         Sub { name: "segments-response-arbitrary", run: |_| {}, replay: |c, v| c.replay_case::<RResp>("segments-response-arbitrary", v, segrpc::check_rresp) },
         Sub { name: "segments-page-roundtrip", run: |_| {}, replay: |c, v| c.replay_case::<PageCase>("segments-page-roundtrip", v, segrpc::check_page) },
+        Sub { name: "path-minimal", run: |_| {}, replay: |c, v| c.replay_case::<PathVal>("path-minimal", v, pathrpc::check_val) },
+        Sub { name: "path-minimal-message", run: |_| {}, replay: |c, v| c.replay_case::<PathMsg>("path-minimal-message", v, pathrpc::check_msg) },
         Sub { name: "path-value-roundtrip", run: run_path, replay: |c, v| c.replay_case::<PathVal>("path-value-roundtrip", v, pathrpc::check_val) },
         Sub { name: "path-message-wellformed", run: |_| {}, replay: |c, v| c.replay_case::<PathMsg>("path-message-wellformed", v, pathrpc::check_msg) },
         Sub { name: "path-message-arbitrary", run: |_| {}, replay: |c, v| c.replay_case::<PathMsg>("path-message-arbitrary", v, pathrpc::check_msg) },
-        Sub { name: "path-local", run: |_| {}, replay: |c, v| c.replay_case::<u64>("path-local", v, |ia, _| pathrpc::check_local(*ia)) },
+        Sub { name: "path-local", run: |_| {}, replay: |c, v| c.replay_case::<u64>("path-local", v, |ia: &u64, _| pathrpc::check_local(*ia)) },
         Sub { name: "rpc-raw-bytes", run: run_raw, replay: |c, v| c.replay_case::<RawCase>("rpc-raw-bytes", v, rawbytes::check_raw) },
     ];
     vcore::main(
         "C18",
-        "RULE-TEXT",
-        &["ASSUMPTIONS"],
+        "cases = (a) a signed path segment (1-5 AS entries, 0-2 peer entries each, 2-3 ECDSA P-256 keys, key ids present/absent; signed through add_entry / SignedPathSegment::new / try_into_signed_segment, or by an independent reference signer with SHA-256/384/512, extensions in the body, header metadata) presented after one tampering operator: single-bit flip in header_and_body / signature / segment-info bytes (through the RPC form and through the serde form), multi-flip, entry swap, drop-first, drop-middle, truncate tail, copy of an entry inserted/appended, foreign authentic entry appended, key substitution, missing key, associated-data length lie, forged entry (attacker key, trusted or not), (r,n-s), alternative DER, alternative info encoding; every single-bit flip of a fixed set of small segments incl. the real segment of the repository's test is enumerated exhaustively. Oracle: byte-level model of the chain - the entry at position p must validate IFF an authentic record has exactly its bytes, was signed over exactly info || (hb||sig of entries 0..p) as presented, announces that length, and the verifier resolves the signer's key; API-produced signatures are verified independently (SHA-2 + p256 over hb||info||preceding entries). (b) SignedMessage sign/validate/decode_validated alone with chunked associated data (model as above). (c) RPC: from_rpc(to_rpc(x)) == x for segments, SegmentsPage and ScionPath with canonical rich metadata; structural arbitrary PathSegment / SegmentsResponse / daemon Path messages (values beyond 16 bits, missing sub-messages, inconsistent vector lengths, negative times, junk bytes) and byte-mutated encodings decoded with prost: Ok or Err, never a panic; an accepted message is represented without silent truncation, a message inside every documented width / vector length is accepted and each datum is found where daemon.proto says it belongs, and the accepted value survives to_rpc -> from_rpc. Non-trivial = a presented segment produced by a tampering operator (distinct by segment and operator), a signed message presented with a non-identity operator, a path value or well-formed path message carrying per-link metadata (latency, bandwidth, link type or internal hops), an accepted well-formed structural segment message, a converted byte-mutated message.",
+        &["the ECDSA/SHA-2 primitives (p256, sha2) are assumed correct; they are also used by the independent verifier", "signing keys are a fixed deterministic pool (RFC 6979 signatures): no OS randomness, replays are exact", "entries of one segment carry distinct ASes (a segment with two identical AsEntry values is outside the generator)", "extensions / unsigned extensions of AsEntry are empty and next_page_token is empty (documented as unsupported), EPIC authenticators are not generated on the value side (documented as unsupported)", "path values are in canonical form: last interface without latency/bandwidth, link types and internal hops all-or-nothing, bandwidth > 0, geo not all-zero, address non-empty, no NaN, expiration <= i64::MAX, IPv6 next hop without flow info", "(r, n-s) signatures, alternative DER encodings and non-canonical segment-info encodings of the same value are observed and counted, not asserted (see notes/C18.md)", "a conversion error for a message containing non-authentic bytes counts as validation failure of the tampered entry"],
         &subs,
         post,
     );
